@@ -566,6 +566,64 @@ func runC14(r *Run) {
 		r.check(okAll, "store:replaces-existing-entry", r.pos(puts[0].Instr), "with a live entry present every path to heap.put first removes its heap slot",
 			"a live entry of the key keeps its heap slot when the key is stored again: its bytes are counted twice and the orphan's eviction later deletes the live entry")
 	})
+
+	r.rule("R10", "an absent entry stays absent: between fetching an item with manager.get and acquiring a new one, the handler writes item.exp only where the fetched exp != 0 was established (an external storage answers an unknown key with an empty item, never nil) (E1)", func() {
+		_, h := cacheHandler(r)
+		isExpStore := func(in ssa.Instruction) bool {
+			st, ok := in.(*ssa.Store)
+			if !ok {
+				return false
+			}
+			fa, ok := st.Addr.(*ssa.FieldAddr)
+			if !ok {
+				return false
+			}
+			fv := fieldVar(fa.X.Type(), fa.Field)
+			return fv != nil && fieldOwner(fv)+"."+fv.Name() == "cache.item.exp"
+		}
+		isAcquire := func(in ssa.Instruction) bool { return isCallTo(in, nameHasSuffix("cache.manager).acquire")) }
+		present := map[edge]bool{}
+		for _, br := range branchesIn(h) {
+			if loadOfField(br.Info.Root, "cache.item.exp") {
+				if sl, ok := br.eqIntSlot(0, false); ok {
+					present[edge{br.If.Block(), sl}] = true
+				}
+			}
+		}
+		n := 0
+		for _, gc := range callsMatching(h, false, nameHasSuffix("cache.manager).get")) {
+			n++
+			path, hit := reach(pointAfter(gc.Instr), isExpStore, present, isAcquire)
+			r.check(hit == nil, fmt.Sprintf("handler:get#%d:exp-written-only-for-present-entry", n), r.pos(gc.Instr), "with the `exp != 0` edges removed no write of the fetched item's exp is reachable",
+				"the expiry of a fetched item is overwritten although no entry may exist: with an external Storage the first request that triggers the CacheInvalidator for an uncached key makes the empty item look expired, heap.remove(0) runs on an empty heap and the request panics with the cache mutex held: "+pathString(r.P, path))
+		}
+		r.atLeast("manager.get call sites in the handler", n, 2)
+	})
+
+	r.rule("R11", "request directives are matched whatever their letter case (RFC 9111 §5.2: directive names are case-insensitive): what hasRequestDirective searches in went through a case fold (E3)", func() {
+		f := r.Fn(cachePkg, "hasRequestDirective")
+		n := 0
+		for _, c := range callsIn(f, false) {
+			switch c.Name {
+			case "strings.Contains", "strings.Index", "strings.HasPrefix", "strings.HasSuffix", "bytes.Contains", "bytes.Index":
+			default:
+				continue
+			}
+			n++
+			folded := dependsOn(c.Common.Args[0], func(v ssa.Value) bool {
+				cc, ok := v.(*ssa.Call)
+				if !ok {
+					return false
+				}
+				nm := calleeName(&cc.Call)
+				return nm == "strings.ToLower" || strings.HasPrefix(nm, "github.com/gofiber/utils/v2.ToLower") || nm == "bytes.ToLower"
+			}) != nil
+			r.check(folded, fmt.Sprintf("hasRequestDirective:search#%d:case-folded", n), r.pos(c.Instr), "the Cache-Control value is lower-cased before the directive is searched",
+				"the directive is searched in the header as sent: `Cache-Control: No-Store` (or NO-CACHE) is not recognised, the response is stored and served from the cache")
+		}
+		folds := len(callsMatching(f, false, nameIs("strings.EqualFold")))
+		r.atLeast("directive searches", n+folds, 1)
+	})
 }
 
 func handleSource(v ssa.Value, slotAddr func(ssa.Value) (*ssa.IndexAddr, bool)) bool {
